@@ -13,11 +13,14 @@
 EXTENDS Integers, Sequences, FiniteSets, TLC, Json
 CONSTANTS TraceFile, Check
 Tr == ndJsonDeserialize(TraceFile)
-VARIABLES l, ev, win, cyc, nils
-vars == <<l, ev, win, cyc, nils>>
-Init == l = 2 /\ ev = Tr[1] /\ win = "none" /\ cyc = 0 /\ nils = 0
+VARIABLES l, ev, win, cyc, nils,
+          held   \* the run in which the application's handler sits on the first candidate until the Restart is over: what the log
+                 \* shows then is the order of DELIVERY, not of publication, so only what a candidate carries is judged there
+vars == <<l, ev, win, cyc, nils, held>>
+Init == l = 2 /\ ev = Tr[1] /\ win = "none" /\ cyc = 0 /\ nils = 0 /\ held = (Tr[1].mode = "held")
 \* the predicates look at the event about to be absorbed (ev) and the history before it
 Step == /\ l <= Len(Tr) /\ l' = l + 1 /\ ev' = Tr[l]
+        /\ held' = (IF Tr[l].ev = "Reset" THEN Tr[l].mode = "held" ELSE held)
         /\ LET e == ev IN
            CASE e.ev = "Reset" -> win' = "none" /\ cyc' = 0 /\ nils' = 0
              [] e.ev = "Gather" /\ e.ok -> win' = "cycle" /\ cyc' = e.cyc /\ nils' = 0
@@ -28,15 +31,17 @@ Spec == Init /\ [][Step]_vars
 \* each candidate carries the ufrag of the cycle that produced it
 UfragOfCycle == ev.ev = "Cand" => ev.uf = ev.cyc
 \* a cycle that runs to completion emits exactly one nil, after all of its candidates
-OneNilLast == /\ (ev.ev = "Cand" /\ win = "cycle" /\ ev.cyc = cyc) => nils = 0
+OneNilLast == held \/
+              /\ (ev.ev = "Cand" /\ win = "cycle" /\ ev.cyc = cyc) => nils = 0
               /\ (ev.ev = "Nil" /\ win = "cycle") => nils = 0
               /\ (ev.ev = "Restart" /\ ev.completed) => nils = 1
               /\ (ev.ev = "End" /\ ev.complete /\ win = "cycle") => nils = 1
 \* a cycle cancelled by Restart emits none (neither before the Restart nor later)
-NoNilIfCancelled == /\ ev.ev = "Nil" => win = "cycle"
+NoNilIfCancelled == held \/
+                    /\ ev.ev = "Nil" => win = "cycle"
                     /\ (ev.ev = "Restart" /\ ~ev.completed) => nils = 0
 \* an undisturbed cycle completes
-GatherCompletes == (ev.ev = "End" /\ win = "cycle") => ev.complete
+GatherCompletes == held \/ ((ev.ev = "End" /\ win = "cycle") => ev.complete)
 P(n) == CASE n = "UfragOfCycle" -> UfragOfCycle [] n = "OneNilLast" -> OneNilLast
           [] n = "NoNilIfCancelled" -> NoNilIfCancelled [] n = "GatherCompletes" -> GatherCompletes
 AllPredicates == {"UfragOfCycle", "OneNilLast", "NoNilIfCancelled", "GatherCompletes"}
